@@ -14,6 +14,8 @@ Reading of the statement in the model (ForML/Model/CrossVal.lean):
   arbitrary terms (e.g. outputs of preceding operators).
 -/
 import ForML.Lemmas.C12
+import ForML.Lemmas.C12Apply
+import ForML.Model.CrossValActor
 
 namespace ForML.CrossVal
 
@@ -70,6 +72,41 @@ theorem C12_holdout_once (S : Scope) (sp metric reducer : Nat) (X L : Val) :
     score metric reducer (produce S 1 sp X L) = some (.apply metric .none
       [(foldOutcome S sp X L 0).true_, (foldOutcome S sp X L 0).pred]) := by
   simp [produce_eq, score, metricOf, List.range_succ]
+
+/-- **Metric reducers**, for any method's outcomes: no outcome — refused (`assert outcomes`); one — the metric of that
+(true, prediction) pair alone; `k ≥ 2` — the reducer over exactly `k` arguments, argument `i` the metric of outcome `i` and
+of nothing else: every partition is scored exactly once -/
+theorem C12_score_partitions (metric reducer : Nat) (os : List Outcome) :
+    (os = [] → score metric reducer os = none) ∧
+    (∀ o, os = [o] → score metric reducer os = some (.apply metric .none [o.true_, o.pred])) ∧
+    (2 ≤ os.length → ∃ args, score metric reducer os = some (.apply reducer .none args) ∧ args.length = os.length ∧
+      ∀ i (h : i < os.length), args[i]? = some (.apply metric .none [os[i].true_, os[i].pred])) := by
+  refine ⟨by rintro rfl; rfl, by rintro o rfl; rfl, ?_⟩
+  intro h
+  refine ⟨os.map (metricOf metric), ?_, by simp, ?_⟩
+  · match os, h with
+    | o₁ :: o₂ :: rest, _ => simp [score]
+  · intro i hi
+    simp [List.getElem?_map, List.getElem?_eq_getElem hi, metricOf]
+
+/-! ### performance tracking (`PerfTrackScore`): a previously trained pipeline scored on new data -/
+
+/-- `pipeline >> PerfTrackScore(metric)`: the train path ends in the metric — alone, there is one partition — of (the tracked
+labels, the pipeline with the states of the earlier generation applied to the tracked *features of the same data*);
+apply and label pass through.  For every local pipeline every scored prediction describes a record of the tracked
+features and depends only on what that row depended on and on what the earlier generation was trained on: nothing is
+trained on the tracked data — in particular no prediction has seen the outcome it is scored against -/
+theorem C12_perftrack (E : Env) (S : Scope) (hS : Local E S) (metric reducer : Nat) (T0 L0 xa xt xl : Val) :
+    let out := perfTrackScore metric reducer (T0, L0) S xa xt xl
+    let pred := (S xt T0 L0).apply
+    out.train = .apply metric .none [xl, pred] ∧ out.apply = xa ∧ out.label = xl ∧
+    (∀ r ∈ rows E pred, r.key ∈ (rows E xt).keys) ∧
+    (∀ r ∈ rows E pred, ∀ x ∈ r.deps, x ∈ (rows E xt).deps ∨ x ∈ (rows E T0).atoms ∨ x ∈ (rows E L0).atoms) := by
+  intro out pred
+  refine ⟨rfl, rfl, rfl, hS.applyKeys _ _ _ _ (keysIn_self _), ?_⟩
+  let P : Atom → Prop := fun x => x ∈ (rows E xt).deps ∨ x ∈ (rows E T0).atoms ∨ x ∈ (rows E L0).atoms
+  exact hS.applyDeps _ _ _ P ((depsIn_self _).mono fun _ h => .inl h) ((atomsIn_self _).mono fun _ h => .inr (.inl h))
+    ((atomsIn_self _).mono fun _ h => .inr (.inr h))
 
 /-! ### evaluation: no leak -/
 
@@ -187,16 +224,138 @@ private theorem port_eq_select (o : Option Indices) (d : Data) (k : Nat) :
 private theorem rids_select (ps : List Nat) (d : Data) : (select ps d).rids = ps.filterMap fun p => d.rids[p]? := by
   simp [select, Data.rids, List.map_filterMap, List.getElem?_map]
 
-/-- **Sync.**  Whatever the state of the splitter (trained once, on whatever), port `k` of any of its forks selects
-the *same positions* of whatever it is applied to: applied to row-aligned features and labels, it delivers the same
-records in the same order -/
-theorem C12_sync (E : Env) (sp : Nat) (st : Val) (k : Nat) (X L : Val) :
+/-- Whatever the state of the splitter (trained once, on whatever), port `k` of any of its forks selects the *same
+positions* of whatever it is applied to: applied to row-aligned features and labels, it delivers the same records in
+the same order -/
+theorem C12_sync_ports (E : Env) (sp : Nat) (st : Val) (k : Nat) (X L : Val) :
     rows E (.part sp st k X) = select (portPositions (indices E st) k) (rows E X) ∧
     rows E (.part sp st k L) = select (portPositions (indices E st) k) (rows E L) ∧
     ((rows E X).rids = (rows E L).rids → (rows E (.part sp st k X)).rids = (rows E (.part sp st k L)).rids) := by
   refine ⟨by rw [rows_part, port_eq_select], by rw [rows_part, port_eq_select], ?_⟩
   intro h
   rw [rows_part, rows_part, port_eq_select, port_eq_select, rids_select, rids_select, h]
+
+/-! ### the splitter actor: indices computed once in `train`, kept through every state transfer and `set_params` -/
+
+/-- `set_params` replaces the cross-validator and nothing else: the fold indices survive -/
+theorem C12_splitter_params_keep_indices (a : Splitter) (cv : Nat) :
+    (a.setParams cv).indices = a.indices ∧ (a.setParams cv).getParams = cv := ⟨rfl, rfl⟩
+
+/-- `set_state ∘ get_state` (either flavour) and the compiled code's `SetState.set` (which re-applies the receiver's
+hyper-parameters on top) hand over exactly the trained indices and leave the receiver's own cross-validator in place
+(pickled flavour and `SetState.set`) -/
+theorem C12_splitter_state_transfer (t : Transfer) (a trained : Splitter) :
+    (a.setState t trained.getState).indices = trained.indices ∧
+    (a.preset t trained.getState).indices = trained.indices ∧
+    (a.preset t trained.getState).getParams = a.getParams ∧
+    ((a.setState .pickled trained.getState).getParams = a.getParams) := by
+  cases t <;> simp [Splitter.setState, Splitter.preset, Splitter.getState, Splitter.setParams, Splitter.getParams]
+
+/-- …through any chain of forks of forks -/
+theorem C12_splitter_relay (hops : List (Transfer × Nat)) (st : Splitter) :
+    (Splitter.relay hops st).indices = st.indices := by
+  induction hops generalizing st with
+  | nil => rfl
+  | cons h hops ih =>
+    obtain ⟨t, cv⟩ := h
+    rw [Splitter.relay, ih]
+    exact (C12_splitter_state_transfer t (Splitter.new cv) st).2.1
+
+/-- `train` asks the cross-validator exactly once (its `w cv`-th call) and keeps the answer; `apply` never asks (it is a
+function of the actor alone: `Splitter.apply` has no access to `Splits` / `Calls`) -/
+theorem C12_splitter_train_once (sp : Splits) (w : Calls) (cv : Nat) (X L : Data) :
+    ((Splitter.new cv).train sp w X L).1.indices = some (sp cv (w cv) X (some L)) ∧
+    ((Splitter.new cv).train sp w X L).1.getParams = cv ∧
+    ((Splitter.new cv).train sp w X L).2 cv = w cv + 1 ∧
+    ∀ c, c ≠ cv → ((Splitter.new cv).train sp w X L).2 c = w c := by
+  refine ⟨rfl, rfl, by simp [Splitter.train, Splitter.new, Calls.tick], ?_⟩
+  intro c hc
+  simp [Splitter.train, Splitter.new, Calls.tick, hc]
+
+/-- **Sync, from the actor contract.**  For *every* cross-validator behaviour — also one that never answers twice alike
+(`sp` is any function of the call number) — , every call history `w`, every transfer flavour and whatever
+cross-validators the forks' builders carry: the trained worker's state reaches the features fork and the labels fork
+(directly, or through any chain of further forks), and every port of both forks selects exactly the positions computed
+in the one `train` call; on row-aligned inputs they deliver the same records in the same order; the cross-validator has
+been asked exactly once. -/
+theorem C12_splitter_forks (sp : Splits) (w : Calls) (cv cvF cvL : Nat) (tF tL : Transfer)
+    (hopsF hopsL : List (Transfer × Nat)) (X L : Data) :
+    let r := Splitter.runTrain sp cv w X L
+    let idx := sp cv (w cv) X (some L)
+    r.2 cv = w cv + 1 ∧
+    ∀ (k : Nat) (x l : Data),
+      port (Splitter.runApply tF cvF (Splitter.relay hopsF r.1) x) k = select (portPositions (some idx) k) x ∧
+      port (Splitter.runApply tL cvL (Splitter.relay hopsL r.1) l) k = select (portPositions (some idx) k) l ∧
+      (x.rids = l.rids →
+        (port (Splitter.runApply tF cvF (Splitter.relay hopsF r.1) x) k).rids
+          = (port (Splitter.runApply tL cvL (Splitter.relay hopsL r.1) l) k).rids) := by
+  intro r idx
+  have hidx : r.1.indices = some idx := rfl
+  have hF : ((Splitter.new cvF).preset tF (Splitter.relay hopsF r.1)).indices = some idx := by
+    rw [← hidx, ← C12_splitter_relay hopsF r.1]
+    exact (C12_splitter_state_transfer tF (Splitter.new cvF) _).2.1
+  have hL : ((Splitter.new cvL).preset tL (Splitter.relay hopsL r.1)).indices = some idx := by
+    rw [← hidx, ← C12_splitter_relay hopsL r.1]
+    exact (C12_splitter_state_transfer tL (Splitter.new cvL) _).2.1
+  refine ⟨(C12_splitter_train_once sp w cv X L).2.2.1, ?_⟩
+  intro k x l
+  have h1 : port (Splitter.runApply tF cvF (Splitter.relay hopsF r.1) x) k = select (portPositions (some idx) k) x := by
+    simp only [Splitter.runApply, Splitter.apply, hF, port_eq_select]
+  have h2 : port (Splitter.runApply tL cvL (Splitter.relay hopsL r.1) l) k = select (portPositions (some idx) k) l := by
+    simp only [Splitter.runApply, Splitter.apply, hL, port_eq_select]
+  refine ⟨h1, h2, ?_⟩
+  intro h
+  rw [h1, h2, rids_select, rids_select, h]
+
+/-- the graph-level meaning of a splitter port *is* that actor run: `part tag (state tag prev fx fy) k x` = port `k` of a
+fresh instance of the fork's builder that took — by `SetState.set`, either flavour — the state of the worker trained on
+`(fx, fy)`, applied to `x`; `E.dec tag` being what the cross-validator answered in that one call -/
+theorem C12_part_is_fork_of_trained (E : Env) (sp : Splits) (w : Calls) (tag : Nat)
+    (hdec : ∀ x l, E.dec tag x l = sp tag (w tag) x (some l)) (t : Transfer) (cvF : Nat) (prev fx fy x : Val) (k : Nat) :
+    rows E (.part tag (.state tag prev fx fy) k x)
+      = port (Splitter.runApply t cvF (Splitter.runTrain sp tag w (rows E fx) (rows E fy)).1 (rows E x)) k := by
+  have h := (C12_splitter_forks sp w tag cvF cvF t t [] [] (rows E fx) (rows E fy)).2 k (rows E x) (rows E x)
+  simp only [Splitter.relay] at h
+  rw [h.1, rows_part, indices_state, port_eq_select, hdec]
+
+/-- **Sync.**  Features and labels of every fold are split by the very indices computed in the one `train` call of the
+splitter: whatever port `k` of the splitter trained on `(X, L)` is applied to — features `x` or labels `l`, in whichever
+fork — it selects the positions `E.dec sp (rows X) (rows L)` decided then; row-aligned features and labels come out as the
+same records in the same order -/
+theorem C12_sync (E : Env) (sp : Nat) (prev X L : Val) (k : Nat) (x l : Val) :
+    let idx := E.dec sp (rows E X) (rows E L)
+    rows E (.part sp (.state sp prev X L) k x) = select (portPositions (some idx) k) (rows E x) ∧
+    rows E (.part sp (.state sp prev X L) k l) = select (portPositions (some idx) k) (rows E l) ∧
+    ((rows E x).rids = (rows E l).rids →
+      (rows E (.part sp (.state sp prev X L) k x)).rids = (rows E (.part sp (.state sp prev X L) k l)).rids) := by
+  have h := C12_sync_ports E sp (.state sp prev X L) k x l
+  rw [indices_state] at h
+  exact h
+
+/-- in an evaluation, fold `fid` with decided positions `(tr, te)`: the pipeline is trained on `select tr` of the features
+and `select tr` of the labels, predicts `select te` of the features and is scored against `select te` of the labels -/
+theorem C12_eval_sync (E : Env) (S : Scope) (n sp : Nat) (X L : Val) (fid : Nat) (hfid : fid < n)
+    (tr te : List Nat) (hdec : (E.dec sp (rows E X) (rows E L))[fid]? = some (tr, te)) :
+    ∃ trainX trainL testX testL,
+      (produce S n sp X L)[fid]? = some ⟨testL, (S testX trainX trainL).apply⟩ ∧
+      rows E trainX = select tr (rows E X) ∧ rows E trainL = select tr (rows E L) ∧
+      rows E testX = select te (rows E X) ∧ rows E testL = select te (rows E L) :=
+  ⟨_, _, _, _, produce_getElem? S n sp X L hfid,
+    rows_part_train E sp .none X L X fid tr te hdec, rows_part_train E sp .none X L L fid tr te hdec,
+    rows_part_test E sp .none X L X fid tr te hdec, rows_part_test E sp .none X L L fid tr te hdec⟩
+
+/-- …and in an ensemble: fold `fid`'s scope and bases are trained on `select tr` of features and labels, their copies map
+`select te` of the features, and the stacked labels' block is `select te` of the labels -/
+theorem C12_stack_sync (E : Env) (S : Scope) (sp : Nat) (xa xt xl : Val) (fid : Nat)
+    (tr te : List Nat) (hdec : (E.dec sp (rows E xt) (rows E xl))[fid]? = some (tr, te)) :
+    ∃ trainX trainL testX testL,
+      foldOf S sp xa xt xl fid = ⟨(S xa trainX trainL).apply, (S xa trainX trainL).train, (S xa trainX trainL).label,
+        (S testX trainX trainL).apply, testL⟩ ∧
+      rows E trainX = select tr (rows E xt) ∧ rows E trainL = select tr (rows E xl) ∧
+      rows E testX = select te (rows E xt) ∧ rows E testL = select te (rows E xl) :=
+  ⟨_, _, _, _, rfl,
+    rows_part_train E sp .none xt xl xt fid tr te hdec, rows_part_train E sp .none xt xl xl fid tr te hdec,
+    rows_part_test E sp .none xt xl xt fid tr te hdec, rows_part_test E sp .none xt xl xl fid tr te hdec⟩
 
 /-! ### every record is scored exactly once when the test parts partition the data -/
 
@@ -250,7 +409,20 @@ theorem C12_eval_aligned (E : Env) (S : Scope) (hR : RowPreserving E S) (n sp : 
   cases ho
   simp only [foldOutcome]
   rw [rids_eq_keys, hR, ← rids_eq_keys]
-  exact (C12_sync E sp _ (2 * fid + 1) X L).2.2 halign
+  exact (C12_sync_ports E sp _ (2 * fid + 1) X L).2.2 halign
+
+/-- `pipeline >> PerfTrackScore(metric)` for every pipeline expression: the one scored pair is (the tracked labels, the
+predictions for the tracked features), row-aligned; no prediction depends on anything but its input row and the earlier
+generation's training data -/
+theorem C12_perftrack_every_pipeline (E : Env) (p : Pipe) (hp : p.wf = true) (metric reducer : Nat) (T0 L0 xa xt xl : Val)
+    (halign : (rows E xt).rids = (rows E xl).rids) :
+    let pred := (denote p xt T0 L0).apply
+    (perfTrackScore metric reducer (T0, L0) (denote p) xa xt xl).train = .apply metric .none [xl, pred] ∧
+    (rows E pred).rids = (rows E xl).rids ∧
+    (∀ r ∈ rows E pred, ∀ x ∈ r.deps, x ∈ (rows E xt).deps ∨ x ∈ (rows E T0).atoms ∨ x ∈ (rows E L0).atoms) := by
+  intro pred
+  refine ⟨rfl, ?_, (C12_perftrack E (denote p) (C12_pipeline_local E p) metric reducer T0 L0 xa xt xl).2.2.2.2⟩
+  rw [rids_eq_keys, C12_pipeline_rowpreserving E p hp xt T0 L0, ← rids_eq_keys, halign]
 
 /-! ### stacking: fold and base wiring -/
 
@@ -303,6 +475,77 @@ theorem C12_stack_apply (bases : List Scope) (n sp appender stacker reducer : Na
     by simp [List.getElem?_map, List.getElem?_eq_getElem hb], by simp [folds_length], ?_⟩
   intro fid hfid
   simp [List.getElem?_map, folds_getElem? S n sp xa xt xl hfid, baseFold, foldOf]
+
+/-- **Apply mode, on data.**  For every local scope and base and every fold `fid` with decided positions `(tr, te)`:
+argument `fid` of column `b`'s reducer describes records of the live input only, and depends only on what those input
+rows depended on and on records of the *training part of fold `fid`*: it is the prediction of the fold-`fid` model -/
+theorem C12_stack_apply_noleak (E : Env) (S : Scope) (hS : Local E S) (b : Scope) (hb : Local E b) (sp : Nat)
+    (xa xt xl : Val) (fid : Nat) (tr te : List Nat)
+    (hdec : (E.dec sp (rows E xt) (rows E xl))[fid]? = some (tr, te)) :
+    let f := foldOf S sp xa xt xl fid
+    let arg := (b f.trainApply f.trainTrain f.trainLabel).apply
+    (∀ r ∈ rows E arg, r.key ∈ (rows E xa).keys) ∧
+    (∀ r ∈ rows E arg, ∀ x ∈ r.deps,
+      x ∈ (rows E xa).deps ∨ x ∈ (select tr (rows E xt)).atoms ∨ x ∈ (select tr (rows E xl)).atoms) := by
+  intro f arg
+  have hT := rows_part_train E sp .none xt xl xt fid tr te hdec
+  have hTL := rows_part_train E sp .none xt xl xl fid tr te hdec
+  refine ⟨?_, ?_⟩
+  · exact hb.applyKeys _ _ _ _ (hS.applyKeys _ _ _ _ (keysIn_self _))
+  · let P : Atom → Prop := fun x =>
+      x ∈ (rows E xa).deps ∨ x ∈ (select tr (rows E xt)).atoms ∨ x ∈ (select tr (rows E xl)).atoms
+    have h1 : DepsIn (rows E xa) P := (depsIn_self _).mono fun _ h => .inl h
+    have h2 : AtomsIn (rows E (.part sp (.state sp .none xt xl) (2 * fid) xt)) P :=
+      hT ▸ (atomsIn_self _).mono fun _ h => .inr (.inl h)
+    have h3 : AtomsIn (rows E (.part sp (.state sp .none xt xl) (2 * fid) xl)) P :=
+      hTL ▸ (atomsIn_self _).mono fun _ h => .inr (.inr h)
+    exact hb.applyDeps _ _ _ P (hS.applyDeps _ _ _ P h1 h2 h3) (hS.train _ _ _ P h2 h3) (hS.label _ _ _ P h2 h3)
+
+/-- …on the *same input*: for a row-preserving scope and base every fold model's prediction describes exactly the records
+of the live input, in order — the reducer combines, row by row, `n` predictions for one and the same record -/
+theorem C12_stack_apply_same_input (E : Env) (S b : Scope) (hS : RowPreserving E S) (hb : RowPreserving E b) (sp : Nat)
+    (xa xt xl : Val) (fid : Nat) :
+    let f := foldOf S sp xa xt xl fid
+    (rows E (b f.trainApply f.trainTrain f.trainLabel).apply).keys = (rows E xa).keys := by
+  intro f
+  simp only [f, foldOf]
+  rw [hb, hS]
+
+/-- …and it combines *all* of them: with a trained model as base (a stateful mapper; the ensemble at the head of the
+pipeline), every row of the reduced column depends on every record of the training part of *every* fold — the model
+of each fold has contributed to each prediction -/
+theorem C12_stack_apply_all_folds (E : Env) (a : Actor) (ha : a.stateful = true) (n sp reducer : Nat) (xa xt xl : Val)
+    (fid : Nat) (hfid : fid < n) (tr te : List Nat)
+    (hdec : (E.dec sp (rows E xt) (rows E xl))[fid]? = some (tr, te)) :
+    let base := denote (.wrap none (some a) (some a))
+    let col := Val.apply reducer .none ((folds Scope.origin n sp xa xt xl).map fun f => (baseFold base f).2)
+    ∀ r ∈ rows E col, ∀ x,
+      (x ∈ (select tr (rows E xt)).atoms ∨ x ∈ (select tr (rows E xl)).atoms) → x ∈ r.deps := by
+  intro base col r hr x hx
+  -- argument `g` of the reducer: the fold-`g` model applied to the live input, row by row
+  let stOf : Nat → Val := fun g =>
+    .state a.tag .none (.part sp (.state sp .none xt xl) (2 * g) xt) (.part sp (.state sp .none xt xl) (2 * g) xl)
+  have harg : ∀ g, rows E (baseFold base (foldOf Scope.origin sp xa xt xl g)).2
+      = (rows E xa).map fun q => { q with deps := union q.deps (seen E (stOf g)) } := by
+    intro g
+    simp only [baseFold, base, denote, denoteC, denoteWrap, Scope.origin, foldOf, trainedState, ha, if_true]
+    exact rows_applied_stateful E a _ _
+  simp only [col, rows_apply, folds_eq, List.map_map] at hr
+  obtain ⟨_, i, ⟨d, hd, q0, hq0⟩, hall⟩ := hzip_sup hr
+  -- some argument has a row at position `i`, hence the live input has, hence the fold-`fid` argument has
+  obtain ⟨g, _, rfl⟩ := List.mem_map.mp hd
+  simp only [Function.comp_apply, harg, List.getElem?_map] at hq0
+  obtain ⟨p, hp, _⟩ := Option.map_eq_some_iff.mp hq0
+  have hrow := hall (rows E (baseFold base (foldOf Scope.origin sp xa xt xl fid)).2)
+    (List.mem_map.mpr ⟨fid, List.mem_range.mpr hfid, rfl⟩)
+  rw [harg fid] at hrow
+  refine hrow ⟨p.key, union p.deps (seen E (stOf fid))⟩ (by simp [List.getElem?_map, hp]) x ?_
+  refine mem_union.mpr (.inr ?_)
+  show x ∈ seen E (.state a.tag .none _ _)
+  rw [seen_state]
+  refine mem_union.mpr (.inr (mem_union.mpr ?_))
+  rw [rows_part_train E sp .none xt xl xt fid tr te hdec, rows_part_train E sp .none xt xl xl fid tr te hdec]
+  exact hx
 
 /-! ### stacking: no leak -/
 
@@ -391,7 +634,7 @@ theorem C12_stack_aligned (E : Env) (S b : Scope) (hS : RowPreserving E S) (hb :
   intro f
   simp only [f, foldOf]
   rw [rids_eq_keys, hb, hS, ← rids_eq_keys]
-  exact (C12_sync E sp _ (2 * fid + 1) xt xl).2.2 halign
+  exact (C12_sync_ports E sp _ (2 * fid + 1) xt xl).2.2 halign
 
 /-- …hence the whole stacked column is row-aligned with the stacked labels: the final model is trained on
 (prediction, true outcome) pairs of the same record -/
@@ -528,5 +771,32 @@ example : (⟨2, 1⟩ : Atom) ∈ (rows exampleEnv
       (.part 9 (.state 9 .none (.input 1) (.input 2)) 2 (.input 1))
       (.part 9 (.state 9 .none (.input 1) (.input 2)) 3 (.input 2))).apply).deps := by
   decide
+
+/-- apply mode of `FullStack(mapper(5))` (2 folds) on the four live records: each reduced prediction describes its live
+record and depends on all eight training records (features and labels) — fold 0's model saw records 1, 3, fold 1's model
+records 0, 2: both have contributed (hypotheses and conclusion of `C12_stack_apply_all_folds` are not vacuous) -/
+example : (rows exampleEnv (Val.apply 8 .none ((folds Scope.origin 2 9 (.input 0) (.input 1) (.input 2)).map fun f =>
+      (baseFold (denote (.wrap none (some ⟨5, true⟩) (some ⟨5, true⟩))) f).2))).map (fun r => (r.key, r.deps.length))
+    = [(⟨0, 0⟩, 8), (⟨0, 1⟩, 8), (⟨0, 2⟩, 8), (⟨0, 3⟩, 8)] := by
+  decide
+
+/-! ### non-vacuity of the actor contract: a cross-validator that never answers twice alike -/
+
+/-- cross-validator 0: two folds, the rotation moves on with every call of `split` -/
+def exampleSplits : Splits := specSplits [⟨2, .kfold 0, true⟩]
+
+example : exampleSplits 0 0 (idRows 1 [7, 8, 9, 10]) none ≠ exampleSplits 0 1 (idRows 1 [7, 8, 9, 10]) none := by decide
+
+/-- the compiled flow on it — train, the state to a features fork and to a labels fork (fresh instances, `SetState.set`) —
+: both forks deliver the records at the positions decided in call 0 although a second call would have decided otherwise -/
+example : (Machine.init.run exampleSplits .pickled
+      [.new 0 0, .train 0 [7, 8, 9, 10], .getState 0 0, .new 1 0, .preset 1 0, .new 2 0, .preset 2 0,
+       .apply 1 1 [7, 8, 9, 10], .apply 2 2 [7, 8, 9, 10]]).drop 7
+    = [.parts [[8, 10], [7, 9], [7, 9], [8, 10]], .parts [[8, 10], [7, 9], [7, 9], [8, 10]]] := by decide
+
+/-- the statement discriminates: forks that lost the indices and split lazily (each asking the cross-validator again, for
+what it is just splitting) deliver different records for features and labels -/
+example : (cvSplit (idRows 1 [7, 8, 9, 10]) (exampleSplits 0 1 (idRows 1 [7, 8, 9, 10]) none)).map (·.rids)
+    ≠ (cvSplit (idRows 2 [7, 8, 9, 10]) (exampleSplits 0 2 (idRows 2 [7, 8, 9, 10]) none)).map (·.rids) := by decide
 
 end ForML.CrossVal
